@@ -200,4 +200,36 @@ def endsWithRootError (errText : Nat → Str) (rootError : Nat) (message : Strin
 def checkC05 (evs : List Ev) (errText : Nat → Str) (rootError : Nat) (text : String) : Bool :=
   (clausesC05 evs errText rootError text).all id
 
+/-! ### the property on the MESSAGE (`str()` of the error that left `glom()`)
+
+  "The message of an error raised by glom() contains a target-spec trace that begins with the root
+  target …": the trace contained in a message begins at the first line that carries a `Target:`
+  label; what precedes it is preamble.  A message without such a line contains no trace. -/
+
+/-- the message without the type and message of the original error it ends with (that text may
+    itself contain a trace: the original error can be the error of a nested glom call) -/
+def dropRootError (errText : Nat → Str) (rootError : Nat) (message : Str) : Str :=
+  let m := rstrip message
+  let tail := rstrip (errText rootError)
+  if isSuffix tail m then m.take (m.length - tail.length) else m
+
+/-- the lines of the message from its first `Target:` line on (`[]`: there is none) -/
+def msgTraceLines (body : Str) : List Str :=
+  (splitLines body).dropWhile (fun l => (afterLabel "Target".toList l).isNone)
+
+def joinNl : List Str → Str
+  | [] => []
+  | [x] => x
+  | x :: r => x ++ '\n' :: joinNl r
+
+/-- the part of the message that is read as its target-spec trace (the Python traceback lines that
+    follow the trace are part of it: they carry no `Target:` / `Spec:` label) -/
+def msgTrace (errText : Nat → Str) (rootError : Nat) (message : String) : String :=
+  String.ofList (joinNl (msgTraceLines (dropRootError errText rootError message.toList)))
+
+/-- the property evaluated on the message: the clauses of `checkC05` on the trace the message
+    contains, and the message ends with the type and message of the original error -/
+def checkMessageC05 (evs : List Ev) (errText : Nat → Str) (rootError : Nat) (message : String) : Bool :=
+  checkC05 evs errText rootError (msgTrace errText rootError message) && endsWithRootError errText rootError message
+
 end Glom.C05
